@@ -476,14 +476,21 @@ ClimbsAboveRoot(segs) == ClimbsFrom(segs, 1, 0)
 CanonPortText(scheme, pt) ==
   /\ AllDigits(pt) /\ Len(pt) <= 5 /\ (Len(pt) = 1 \/ pt[1] # 48) /\ DigitsVal(pt) <= 65535
   /\ Some(DigitsVal(pt)) # DefaultPort(scheme)
-\* reg-name / IPv4 hosts only (bracketed literals are C16's subject): lower-case ASCII, legal characters,
-\* escapes lower-case (the host is lower-cased as a whole, not re-quoted)
+\* reg-name / IPv4 hosts: lower-case ASCII, legal characters, escapes lower-case (the host is lower-cased as a whole,
+\* not re-quoted).  Bracketed hosts: an IPv6 address in its RFC 5952 text (computed by Host!Compressed), optionally
+\* followed by a zone id written the RFC 6874 way -- "%25" and a non-empty lower-case alphanumeric ZoneID
 RECURSIVE CanonHostFrom(_, _)
 CanonHostFrom(h, i) ==
   IF i > Len(h) THEN TRUE
   ELSE IF h[i] = PCT THEN i + 2 <= Len(h) /\ h[i + 1] \in HexLower /\ h[i + 2] \in HexLower /\ CanonHostFrom(h, i + 3)
   ELSE h[i] \in (Unreserved \cup SubDelims) \ UpperAlpha /\ CanonHostFrom(h, i + 1)
 CanonHost(h) == h # <<>> /\ CanonHostFrom(h, 1)
+CanonZone(z) == Len(z) > 2 /\ z[1] = 50 /\ z[2] = 53 /\ \A i \in 3..Len(z) : z[i] \in (Digit \cup Alpha) \ UpperAlpha
+CanonBracketed(inner) ==
+  LET z == ZoneSplit(inner) g == ParseIPv6(z[1]) IN
+  /\ g # <<>> /\ Compressed(g) = z[1]
+  /\ ~HasAny(z[1], {DOT})                     \* the dotted-quad tail spelling is not the RFC 5952 text Compressed() writes
+  /\ (z[2] => CanonZone(z[3]))
 SchemeNeedsHost(sc) == DefaultPort(sc) # None      \* http https ws wss ftp
 CanonicalUrl(s, usesNetloc) ==
   LET a  == AppendixB(s)
@@ -494,10 +501,10 @@ CanonicalUrl(s, usesNetloc) ==
   /\ ~(\E d \in {FindIn(s, 1, {COLON, SLASH, QMARK, HASH})} : d > 1 /\ s[d] = COLON /\ a.scheme = <<>>)   \* no scheme-like junk
   /\ IF a.hasAuth THEN
         IF a.authority = <<>> THEN a.scheme # <<>> /\ a.scheme \in usesNetloc /\ ~SchemeNeedsHost(a.scheme)
-        ELSE /\ ~Has(a.authority, LBR) /\ ~Has(a.authority, RBR)
+        ELSE /\ ~sa.oddBrackets /\ (sa.bracketed \/ (~Has(a.authority, LBR) /\ ~Has(a.authority, RBR)))
              /\ (sa.hasUserinfo => (sa.user # <<>> \/ sa.hasPassword))
              /\ CanonicalText("user", sa.user) /\ CanonicalText("password", sa.password)
-             /\ CanonHost(sa.host)
+             /\ (IF sa.bracketed THEN CanonBracketed(sa.host) ELSE CanonHost(sa.host))
              /\ (sa.hasPort => CanonPortText(a.scheme, sa.port))
      ELSE ~(a.scheme # <<>> /\ a.scheme \in usesNetloc) \/ (a.path # <<>> /\ a.path[1] # SLASH)
   /\ CanonicalText("path", a.path)
